@@ -233,15 +233,15 @@ theorem granted_eq (k : Kernel) (st : PState) (m : List Nat) (l : List Int) (hn 
   exact ⟨fun h => h.2, fun h => ⟨by omega, h⟩⟩
 
 /-- `cpu_affinity_set` on a duplicate-free copy of `l` when no element is −1 or overflows -/
-theorem cpuAffinitySet_ok (k : Kernel) (pid : Nat) (st : PState) (l : List Int) (hpid : pid ≠ 0)
+theorem cpuAffinitySet_ok (c : Cfg) (k : Kernel) (pid : Nat) (st : PState) (l : List Int) (hpid : pid ≠ 0)
     (hst : k.procs pid = some st) (hn : k.ncpu ≤ 1024) (hl : AllLong l) (h1 : (-1 : Int) ∉ l)
     (g : List Nat)
     (hg : (List.range k.ncpu).filter (fun (c : Nat) => decide ((c : Int) ∈ l) && st.cpuset.contains c) = g)
     (hne : g ≠ []) :
-    cpuAffinitySet k pid (pySet l) =
+    cpuAffinitySet k pid (dedup c l) =
       (.ok .none, setProc k pid { st with affinity := g } (.affinity pid g)) := by
-  obtain ⟨m, hm, hmem⟩ := cpuSetOfSeq_ok (allLong_pySet hl) (fun h => h1 ((mem_pySet l _).1 h))
-  have hmem' : ∀ x : Nat, x ∈ m ↔ (x < 1024 ∧ (x : Int) ∈ l) := fun x => by rw [hmem, mem_pySet]
+  obtain ⟨m, hm, hmem⟩ := cpuSetOfSeq_ok (allLong_dedup c hl) (fun h => h1 ((mem_dedup c l _).1 h))
+  have hmem' : ∀ x : Nat, x ∈ m ↔ (x < 1024 ∧ (x : Int) ∈ l) := fun x => by rw [hmem, mem_dedup c]
   have hgr := granted_eq k st m l hn hmem'
   rw [hg] at hgr
   have hemp : g.isEmpty = false := by
@@ -271,7 +271,7 @@ theorem refines_affinity (c : Cfg) (hg : c.Good) (k : Kernel) (pid : Nat) (st : 
       rename_i hemp
       simp only [Verdict.promised.injEq] at hs
       obtain ⟨rfl, rfl⟩ := hs
-      simp only [step, cpuAffinity, hemp, if_true, hg.empty, dedup, hg.dedup]
+      simp only [step, cpuAffinity, hemp, if_true, hg.empty]
       have hl : AllLong ((List.range 1024).map Int.ofNat) := by
         intro v hv
         simp only [List.mem_map, List.mem_range] at hv
@@ -294,7 +294,7 @@ theorem refines_affinity (c : Cfg) (hg : c.Good) (k : Kernel) (pid : Nat) (st : 
           simp only [List.mem_map, List.mem_range]
           exact ⟨x, by have := hwf.ncpu; omega, rfl⟩
         simp [this]
-      rw [cpuAffinitySet_ok k pid st _ hpid hst hwf.ncpu hl h1 _ hgr (eligible_ne_nil hwf)]
+      rw [cpuAffinitySet_ok c k pid st _ hpid hst hwf.ncpu hl h1 _ hgr (eligible_ne_nil hwf)]
       rfl
     · rename_i hne
       have hne' : cpus ≠ [] := fun e => hne (by simp [e])
@@ -313,7 +313,7 @@ theorem refines_affinity (c : Cfg) (hg : c.Good) (k : Kernel) (pid : Nat) (st : 
           cases cpus with
           | nil => exact absurd rfl hne'
           | cons _ _ => rfl
-        simp only [step, cpuAffinity, hemp, Bool.false_eq_true, if_false, dedup, hg.dedup, if_true]
+        simp only [step, cpuAffinity, hemp, Bool.false_eq_true, if_false]
         have hl : AllLong cpus := by
           intro v hv
           obtain ⟨h0, he⟩ := hall' v hv
@@ -347,7 +347,7 @@ theorem refines_affinity (c : Cfg) (hg : c.Good) (k : Kernel) (pid : Nat) (st : 
               simp only [List.mem_filter, List.mem_range, List.contains_iff_mem]
               exact ⟨((mem_eligible k st _).1 he).1, by simp⟩
             rw [h] at hm; cases hm
-        rw [cpuAffinitySet_ok k pid st _ hpid hst hwf.ncpu hl h1 _ hgr hnil]
+        rw [cpuAffinitySet_ok c k pid st _ hpid hst hwf.ncpu hl h1 _ hgr hnil]
         rfl
       · split at hs
         · -- only nonexistent / ineligible CPUs
@@ -365,16 +365,16 @@ theorem refines_affinity (c : Cfg) (hg : c.Good) (k : Kernel) (pid : Nat) (st : 
             cases cpus with
             | nil => exact absurd rfl hne'
             | cons _ _ => rfl
-          simp only [step, cpuAffinity, hemp, Bool.false_eq_true, if_false, dedup, hg.dedup, if_true]
+          simp only [step, cpuAffinity, hemp, Bool.false_eq_true, if_false]
           have hl : AllLong cpus := fun v hv => (hinv' v hv).1
           -- the diagnosis finds an offending CPU
           have hdiag : ∀ el, getEligibleCpus k pid = some el →
-              diagnose (List.range k.ncpu) el (pySet cpus) = true := by
+              diagnose (List.range k.ncpu) el (dedup c cpus) = true := by
             intro el hel
             rw [diagnose_true]
             by_cases hex : ∃ x ∈ cpus, x < 0 ∨ k.ncpu ≤ x.toNat
             · obtain ⟨x, hx, hx'⟩ := hex
-              refine ⟨x, (mem_pySet cpus x).2 hx, ?_⟩
+              refine ⟨x, (mem_dedup c cpus x).2 hx, ?_⟩
               rcases hx' with h | h
               · exact Or.inl h
               · right; left
@@ -397,7 +397,7 @@ theorem refines_affinity (c : Cfg) (hg : c.Good) (k : Kernel) (pid : Nat) (st : 
               | nil => exact absurd hc hne'
               | cons y rest =>
                 have hy : y ∈ cpus := by simp [hc]
-                refine ⟨y, (mem_pySet _ y).2 (by simp), Or.inr (Or.inr ?_)⟩
+                refine ⟨y, (mem_dedup c _ y).2 (by simp), Or.inr (Or.inr ?_)⟩
                 cases hr : statusRange st.affinity with
                 | none => exact absurd hr hsr
                 | some ab =>
@@ -415,10 +415,10 @@ theorem refines_affinity (c : Cfg) (hg : c.Good) (k : Kernel) (pid : Nat) (st : 
             split <;> exact ⟨_, rfl⟩
           obtain ⟨el, hel⟩ := hel
           by_cases hm1 : (-1 : Int) ∈ cpus
-          · have := cpuSetOfSeq_minus1 (allLong_pySet hl) ((mem_pySet cpus _).2 hm1)
+          · have := cpuSetOfSeq_minus1 (allLong_dedup c hl) ((mem_dedup c cpus _).2 hm1)
             simp [cpuAffinitySet, cextAffinitySet, this, hel, hdiag el hel]
-          · obtain ⟨m, hm, hmem⟩ := cpuSetOfSeq_ok (allLong_pySet hl) (fun h => hm1 ((mem_pySet cpus _).1 h))
-            have hmem' : ∀ x : Nat, x ∈ m ↔ (x < 1024 ∧ (x : Int) ∈ cpus) := fun x => by rw [hmem, mem_pySet]
+          · obtain ⟨m, hm, hmem⟩ := cpuSetOfSeq_ok (allLong_dedup c hl) (fun h => hm1 ((mem_dedup c cpus _).1 h))
+            have hmem' : ∀ x : Nat, x ∈ m ↔ (x < 1024 ∧ (x : Int) ∈ cpus) := fun x => by rw [hmem, mem_dedup c]
             have hgr := granted_eq k st m cpus hwf.ncpu hmem'
             have hnil : (List.range k.ncpu).filter
                 (fun (c : Nat) => decide ((c : Int) ∈ cpus) && st.cpuset.contains c) = [] := by
